@@ -63,6 +63,7 @@ namespace c09
         vf::Rng &r;
         long budget; // leaf bytes still available; bounds the total size of one value
         int depth = 0;
+        int rec = 0;      // nesting level of a recursive user type
         unsigned alt = 0; // conditional user types alternate "with block" / "without block" along a container
     };
     template <class T> T gen(Gen &g);
